@@ -369,6 +369,31 @@ def formations_in_step(ctx):
                    "the formation update at %s iterates / is guarded by the dummy tour: removed maintenance slots (never part of a dummy tour) keep "
                    "the vehicle in their formation and block a track" % bad[0].line() if bad else "no formation update found",
                    loc=bad[0].line() if bad else None)
+    # the node sequence handed to update_train_formation is the whole path / tour: no adaptor drops elements on the way
+    o = ctx.ob("R3.formation-updates-get-every-node", "T12", SCHEDULE, "every caller hands update_train_formation all nodes of the path or tour it moves "
+               "(no filter / skip / take between the node sequence and the call)")
+    seen, bad = 0, []
+    for k in sorted(ctx.prog.bodies):
+        if not k.startswith(SCHEDULE + "::") or getattr(ctx.prog.bodies[k], "test_unit", False):
+            continue
+        f = ctx.fd(k)
+        if f is None:
+            continue
+        for u in calls_to(f, UTF):
+            if len(u.args) < 6:
+                continue
+            seen += 1
+            nar = narrowing_calls(f, u, 5)
+            if nar:
+                bad.append((u, nar[0]))
+    if bad:
+        u, n = bad[0]
+        ctx.bad(o, "the nodes passed to update_train_formation at %s go through %s(): the vehicle is not entered into / taken out of the formation of "
+                "the nodes that are dropped, so tours and formations disagree" % (u.line(), (n.callee or n.decl or "").split("::")[-1]), loc=u.line())
+    elif seen >= 5:
+        ctx.ok(o, "%d formation updates, none behind a dropping adaptor" % seen)
+    else:
+        ctx.undecided(o, "only %d formation update call(s) found" % seen)
     must_depend(ctx, "R3.update-covers-nodes", "T1", UTF, "dec", [call(ND("is_depot"))],
                 "update_train_formation processes every moved non-depot node")
     o, fd = ctx.require_fn("R3.update-writes-formation-per-node", "T1", UTF, "each processed node's formation is replaced by the result of the vehicle replacement")
@@ -409,6 +434,9 @@ def rules(ctx):
     field_tables(ctx)
     completeness(ctx)
     formations_in_step(ctx)
+    # the formation edits themselves (shared with C13): what update_train_formation books is what the edit puts into the vector
+    from .C13 import formation_edits
+    formation_edits(ctx, "R3")
     dead_heads(ctx)
     from . import order
     order.pair_order(ctx, "R4", only={"solution::json_serialisation::schedule_dead_head_trip", N("minimal_duration_between_nodes")})
